@@ -1,7 +1,9 @@
 (* C02 - failure and skip containment: final step states follow the DAG semantics.
    This file holds nothing but the property theorems (closed by `exact`) and Print Assumptions.
    Model: Sched/Model.v.  Proofs: Sched/ProofsFinal.v (invariants I6/I7).  Tie to the code: tools/props/C02.py.
-   Premise: norepeat c (no repeatPolicy step).  Since fix f9e55a3 no premise about the done channel is needed.
+   Premise: norepeat c (no repeatPolicy step: a repeating step has no last attempt until a stop request - stopped runs
+   are C04/C05 - and with continueOn.failure it is labelled failed while it keeps executing, see
+   C15_repeating_step_refuted).  Since fix f9e55a3 no premise about the done channel is needed.
    Reading kept explicit: a *canceled* dependency blocks its dependents irrespective of continueOn.failure - that is
    what isReady does (scheduler.go:379-381) and what the property's local-consistency quantifier allows. *)
 From Coq Require Import List.
